@@ -1,13 +1,220 @@
-"""C06 — no leftover lock on failure-free paths (DESIGN §4 C06); trace grammar and division of labour: HUB.md."""
+"""C06 — no leftover lock on failure-free paths (DESIGN §4 C06).
+
+Two parts, one Check object: (1) the transactional hub (trace grammar and division of labour: HUB.md) — the real client
+under the hub's scheduler, traces judged by cgv-hub; (2) the bookkeeping correspondence — the client-side lock bookkeeping
+of KVTxn (LockKeys, aggressive locking start/retry/cancel/done, Commit/Rollback) is MODELLED in Lean (Model/AggLock.lean,
+no-leak invariant proved in Proofs/AggLock.lean) and the model is run next to the real KVTxn on the same op lines
+(harness/c06agg, cgv-c06agg)."""
+import json
+import os
+import re
+import time
+
+import vcheck
+from vcheck import Problem
 from checks.hub_common import run_hub, replay_hub
 
 PID = "C06"
-RULE = ("programs of ≤ 12 calls (set/insert/delete/lock with options/aggressive-locking start/retry/cancel/done) of one client with a contender taking pessimistic locks, third parties committing newer versions (write conflict, key exists, deadlock, lock-wait time-out), region errors / splits / leader moves in between, no request lost; after the final call and the drain of the background work `audit locks` lists every lock left in the store; agg-retry family: fair (aggressive) locking retried after locked-with-conflict with old / conflict / fresh for-update ts, overlapping or disjoint keys, ended by done / cancel / directly × commit / rollback; batches family: one LockKeys call split into several requests inside one region (≈1 KB keys or a lowered batch size), a later batch failing with write conflict or key exists; agg-expire family: a retry after the previous attempt's locks expired (stalled ttl manager, foreign writer in between); oracles `audit locks`, `audit held`; relock family (a failing LockKeys over held + new keys, statement retry, `audit held` after every call, an intruder probing a held key); round 3: agg-retry with options changing between attempts and the transaction ended after the sanity error; early-fail family (PD outage `tsofail` / failing schema-lease checker at Commit of a pessimistic transaction, control runs without the failure)")
+EXE = "cgv-c06agg"
+HARNESS = "c06agg"
+BK = "bookkeeping: "
+RULE = ("programs of ≤ 12 calls (set/insert/delete/lock with options/aggressive-locking start/retry/cancel/done) of one client with a contender taking pessimistic locks, third parties committing newer versions (write conflict, key exists, deadlock, lock-wait time-out), region errors / splits / leader moves in between, no request lost; after the final call and the drain of the background work `audit locks` lists every lock left in the store; agg-retry family: fair (aggressive) locking retried after locked-with-conflict with old / conflict / fresh for-update ts, overlapping or disjoint keys, ended by done / cancel / directly × commit / rollback; batches family: one LockKeys call split into several requests inside one region (≈1 KB keys or a lowered batch size), a later batch failing with write conflict or key exists; agg-expire family: a retry after the previous attempt's locks expired (stalled ttl manager, foreign writer in between); oracles `audit locks`, `audit held`; relock family (a failing LockKeys over held + new keys, statement retry, `audit held` after every call, an intruder probing a held key). "
+        "BOOKKEEPING CORRESPONDENCE (second part): stateful cases (`# case n`, `reset v=<keys with a committed value>`) over 2–5 keys of one pessimistic KVTxn on mocktikv: "
+        "ops start / retry / cancel / done / rollback / commit / pne k (presume-key-not-exists flag of an INSERT) / lock <keys> <options r c e n> — after every op the implementation line "
+        "(currentLockedKeys and lastRetryUnnecessaryLocks with HasReturnValue/HasCheckExistence/Exists/LockedWithConflictTS per key, membuffer keys flagged locked with their value-exists flag, lockedCnt, "
+        "primary-key bookkeeping, keys of the PessimisticLock / PessimisticRollback / Commit requests sent, keys the store holds a lock of the transaction on) must equal the model's line; the op line carries the environment's "
+        "answers (for-update ts, mayAggressiveLockingLastLockedKeysExpire, error class of the call, per requested key: lock newly placed / existence / locked-with-conflict ts); environment ops ts / put / del / olock / orel / age "
+        "(third-party commits, a contender's pessimistic locks incl. wait-for edges for dead locks, passage of time); property op chk-noleak on BOTH sides: locks the store holds that the client no longer tracks "
+        "(all locks once the transaction is over) → ok / FAIL leak <keys>; directed corpus first (known leak and its variants), then seeded random statements with 1–4 attempts")
+
+ASSUMPTIONS = [
+    "bookkeeping correspondence: the background work of one op (async pessimistic rollbacks, secondary commits) is drained before the next op; the rollback DoneAggressiveLocking issues inside a LockKeys call reaches the store before the call's own lock request (the other order ends in the same store state: the refreshed for_update_ts makes the late rollback a no-op)",
+    "bookkeeping correspondence: one region (a LockKeys call is one PessimisticLock request), for-update ts fetched once per statement attempt and never decreasing, no lock expires (virtual PD clock), membuffer used for key flags only (no Set/Delete), ops after Commit/Rollback are not executed",
+    "the theorems assume the store contract `wfLock` for every answer (a lock-only-if-exists request does not lock a key it reports as missing; locked-with-conflict ts > for-update ts; a request answered write conflict / key exists locked none of its keys): every observed answer is checked against it (store_contract_violations)",
+]
+
+
+def _kinds(case):
+    """which excluded situations (Model/AggLock.lean `excludedLock`) a case seems to contain — only used to group failing
+    cases so that many hits of one defect cannot hide another"""
+    k = set()
+    for o in case:
+        w = o.split()
+        if w[0] != "lock" or len(w) < 7 or "," in w[1]:
+            continue
+        err, ans = w[5][4:], w[6][4:]
+        if err in ("wc", "ke"):
+            k.add("relock-" + err)
+        elif err == "-" and "e" in w[2] and re.match(r"\d+:[AN]-", ans):
+            k.add("loie-notfound")
+    return ",".join(sorted(k))
+
+
+def still_fails(c, case, hbin, exe, want):
+    """the predicate of the shrinker: the candidate fails in the SAME way as the case it comes from — `leak-agree`: chk-noleak
+    fails on the implementation and the model predicts exactly that; `leak-differ`: it fails and the model does not;
+    `mismatch`: some line differs — and it does not end the transaction inside an aggressive-locking stage that holds keys
+    (API misuse, answered `err:pending`: a leak of its own that deleting a `done` line would otherwise shrink into)"""
+    r = c._run_case(case, hbin, exe, None)
+    if r is None:
+        return False
+    impl, model = r
+    if len(impl) != len(model):
+        return want == "mismatch"
+    if any(a.startswith("err:pending") for a in impl):
+        return False
+    for a, b in zip(impl, model):
+        if want == "mismatch":
+            if a != b:
+                return True
+        elif a.startswith(("FAIL", "panic")) and (a == b) == (want == "leak-agree"):
+            return True
+    return False
+
+
+def shrink(c, case, hbin, exe, want, budget=80):
+    """ddmin over op lines with `still_fails` as the predicate"""
+    cur = list(case)
+    if not still_fails(c, cur, hbin, exe, want):
+        return cur
+    n, runs = 2, 0
+    while len(cur) >= 2 and runs < budget:
+        chunk = max(1, len(cur) // n)
+        reduced = False
+        for s in range(0, len(cur), chunk):
+            cand = cur[:s] + cur[s + chunk:]
+            runs += 1
+            if cand and still_fails(c, cand, hbin, exe, want):
+                cur, n, reduced = cand, max(n - 1, 2), True
+                break
+            if runs >= budget:
+                break
+        if not reduced:
+            if chunk == 1:
+                break
+            n = min(len(cur), n * 2)
+    return cur
+
+
+def triage(c, ops_file, impl_file, model_file, hbin, exe, budget_s):
+    c.diff(ops_file, impl_file, model_file, stateful=True, max_report=0)   # counters, samples
+    ops = open(ops_file).read().splitlines()
+    impl = open(impl_file).read().splitlines()
+    model = open(model_file).read().splitlines()
+    n = min(len(ops), len(impl), len(model))
+    groups = {}
+    for (a, b) in vcheck.split_cases(ops[:n]):
+        idx = [i for i in range(a, min(b, n)) if not ops[i].startswith("#") and
+               (impl[i] != model[i] or impl[i].startswith(("FAIL", "panic")))]
+        if not idx:
+            continue
+        pf = [i for i in idx if impl[i].startswith("FAIL")]
+        f = pf[0] if pf else idx[0]
+        case = [o for o in ops[a:f + 1] if not o.startswith("#")]
+        agree = impl[f] == model[f]
+        sig = (ops[f].split()[0], " ".join(impl[f].split()[:2]) if pf else "mismatch", agree, _kinds(case) if agree else "")
+        groups.setdefault(sig, []).append(case)
+    c.cov["bookkeeping_failing_cases"] = sum(len(v) for v in groups.values())
+    c.cov["bookkeeping_failing_signatures"] = {" / ".join(map(str, k)): len(v) for k, v in sorted(groups.items())}
+    for v in groups.values():
+        v.sort(key=len)
+    t0 = time.time()
+    rnd = 0
+    while any(len(v) > rnd for v in groups.values()):
+        for sig, v in sorted(groups.items()):
+            if len(v) <= rnd or (rnd >= 1 and time.time() - t0 > budget_s) or rnd >= 6:
+                continue
+            want = "mismatch" if sig[1] == "mismatch" else ("leak-agree" if sig[2] else "leak-differ")
+            case = v[rnd]
+            # pre-pass: environment lines that only refresh the statement's for-update ts rarely matter
+            slim = [o for o in case if o != "ts"]
+            if len(slim) < len(case) and still_fails(c, slim, hbin, exe, want):
+                case = slim
+            shrunk = shrink(c, case, hbin, exe, want)
+            isprop, det = c.classify_case(shrunk, hbin, exe, None)
+            # report the op lines of the shrunk run itself (the answers observed THERE, not those of the original context)
+            try:
+                again = [o for o in open(os.path.join(c.work, "shrink.ops")).read().splitlines() if not o.startswith("#")]
+                if len(again) == len(shrunk):
+                    shrunk = again
+            except OSError:
+                pass
+            c.problems.append(Problem("property" if isprop else "correspondence",
+                                      BK + ("property op chk-noleak fails on the implementation" if isprop
+                                            else "model and implementation disagree"), shrunk, det))
+        rnd += 1
+
+
+def bookkeeping(c, budget=None):
+    t0 = time.time()
+    try:
+        _bookkeeping(c, budget)
+    finally:
+        c.cov["bookkeeping_wall_s"] = round(time.time() - t0, 2)
+
+
+def _bookkeeping(c, budget=None):
+    c.assumptions += ASSUMPTIONS
+    exe = c.build_driver(EXE)
+    hbin = c.build_harness(HARNESS)
+    if not (exe and hbin):
+        return
+    r = c.run_harness(hbin, tag="agg")
+    if not r:
+        return
+    ops, impl, st = r
+    c.cov["input_distribution_bookkeeping"] = st
+    c.cov["programs"] = c.cov.get("programs", 0) + st.get("cases", 0)
+    mstats = os.path.join(c.work, "agg.mstats")
+    m = c.run_model(exe, ops, tag="agg", args=["--stats", mstats])
+    if not m:
+        return
+    try:
+        ms = json.load(open(mstats))
+    except Exception:
+        ms = {}
+    c.cov["bookkeeping_proved_fragment"] = ms
+    if ms.get("store_contract_violations", 1):
+        c.problems.append(Problem("correspondence", BK + "an observed answer of the store violates the contract the theorems assume (wfLock)",
+                                  ms.get("store_contract_violation_lines", []), json.dumps(ms)))
+    if ms.get("model_leaks_inside_fragment", 1):
+        c.problems.append(Problem("proof", BK + "the model leaks inside the fragment the theorems cover", [], json.dumps(ms)))
+    triage(c, ops, impl, m, hbin, exe, budget if budget is not None else (10 if c.tier == "quick" else 90))
 
 
 def run(a):
-    return run_hub(PID, a, RULE)
+    return run_hub(PID, a, RULE, extra_part=bookkeeping)
 
 
 def replay(a):
-    return replay_hub(PID, a, RULE)
+    """a replay file may hold cases of both parts: hub traces are re-judged, bookkeeping cases re-executed"""
+    rp = json.load(open(a.replay))
+    bk = [p for p in rp["problems"] if p.get("what", "").startswith(BK) and p["kind"] in ("property", "correspondence") and p["case"]]
+    rc = 0
+    if len(bk) < len(rp["problems"]):
+        rest = dict(rp, problems=[p for p in rp["problems"] if p not in bk])
+        tmp = a.replay + ".hub.json"
+        json.dump(rest, open(tmp, "w"))
+        a2 = type(a)(**dict(vars(a), replay=tmp))
+        rc = replay_hub(PID, a2, RULE)
+        os.remove(tmp)
+    if bk:
+        c = vcheck.Check(PID, a.tier, a.seed)
+        c.cov["rule"] = RULE
+        exe = c.build_driver(EXE)
+        hbin = c.build_harness(HARNESS)
+        if exe and hbin:
+            f = os.path.join(c.work, "in.replay")
+            with open(f, "w") as fh:
+                for i, p in enumerate(bk, 1):
+                    fh.write(f"# case {i} replay\n" + "\n".join(p["case"]) + "\n")
+            r = c.run_harness(hbin, replay=f, tag="agg")
+            if r:
+                ops, impl, _ = r
+                m = c.run_model(exe, ops, tag="agg")
+                if m:
+                    for o, i, mm in zip(open(ops).read().splitlines(), open(impl).read().splitlines(), open(m).read().splitlines()):
+                        print(f"{o}\n   impl : {i}\n   model: {mm}")
+                    triage(c, ops, impl, m, hbin, exe, 60)
+        rc = max(rc, c.finish())
+    return rc
